@@ -28,6 +28,22 @@ type dcons struct {
 
 type dsys struct {
 	cons []dcons
+	neq  []dcons // x - y != c
+}
+
+// tighten uses the disequalities: x - y <= c and x - y != c give x - y <= c-1 (and likewise from
+// below).
+func (s *dsys) tighten() {
+	for round := 0; round < 2; round++ {
+		for _, n := range s.neq {
+			if s.implied(n.x, n.y, n.c) && !s.implied(n.x, n.y, n.c-1) {
+				s.add(n.x, n.y, n.c-1)
+			}
+			if s.implied(n.y, n.x, -n.c) && !s.implied(n.y, n.x, -n.c-1) {
+				s.add(n.y, n.x, -n.c-1)
+			}
+		}
+	}
 }
 
 func (s *dsys) add(x, y string, c int64) {
@@ -126,6 +142,9 @@ func (s *dsys) addAtom(a Atom) {
 		// len(x) != 0  =>  len(x) >= 1
 		if isLenTerm(a.X) && ys == "0" && yo == 0 && xo == 0 {
 			s.le("0", xs, -1)
+		}
+		if xs != ys {
+			s.neq = append(s.neq, dcons{xs, ys, yo - xo})
 		}
 	}
 }
@@ -406,10 +425,12 @@ func (tb *TB) buildSystem(facts []Atom, at *ssa.BasicBlock, withPhi bool) *dsys 
 		ls, lc, _ := tb.lenSym(l.Over)
 		s.le(is, ls, lc-1-io)
 	}
+	s.tighten()
 	if withPhi {
 		for _, ph := range phis {
 			tb.phiBounds(s, ph)
 		}
+		s.tighten()
 	}
 	return s
 }
@@ -498,7 +519,8 @@ func (tb *TB) phiBounds(s *dsys, ph *ssa.Phi) {
 		}
 	}
 	with := func(s *dsys, x, y string, c int64) *dsys {
-		n := &dsys{cons: append(append([]dcons{}, s.cons...), dcons{x, y, c})}
+		n := &dsys{cons: append(append([]dcons{}, s.cons...), dcons{x, y, c}), neq: s.neq}
+		n.tighten()
 		return n
 	}
 	seen := map[lin]bool{}
@@ -687,6 +709,12 @@ func (tb *TB) indexOb(in ssa.Instruction, x, idx ssa.Value) *BoundOb {
 		}
 	}
 	ob.Detail = fmt.Sprintf("cannot establish 0 <= %s < %s", short(tb.Term(idx).String()), lenDesc(ls, lc))
+	if os.Getenv("AGECHECK_DEBUG_BOUNDS") != "" {
+		fmt.Fprintf(os.Stderr, "bounds: %s\n  idx=%s%+d len=%s%+d lower=%v upper=%v\n", ob.Desc, is, io, ls, lc, lower, upper)
+		for _, c := range s.cons {
+			fmt.Fprintf(os.Stderr, "    %s - %s <= %d\n", c.x, c.y, c.c)
+		}
+	}
 	return ob
 }
 
